@@ -132,7 +132,7 @@ enum Final {
     CustomErrorNoParams,
 }
 
-fn client_case(ctx: &Ctx, k: usize, fin: Final, follow: usize, rng: &mut Rng) {
+fn client_case(ctx: &Ctx, k: usize, fin: Final, follow: usize, spelling: usize, rng: &mut Rng) {
     let val = |i: usize, rng: &mut Rng| -> Value {
         match rng.below(4) {
             0 => json!({"i": i, "s": "ü\"\\\n"}),
@@ -151,6 +151,12 @@ fn client_case(ctx: &Ctx, k: usize, fin: Final, follow: usize, rng: &mut Rng) {
         Final::CustomError => json!({"error": "com.example.Boom", "parameters": {"why": "x", "i": k}}),
         Final::CustomErrorNoParams => json!({"error": "com.example.Boom"}),
     });
+    // a peer may spell "this is the final reply" as: member absent, `false`, or `null`
+    match spelling {
+        1 => script[k]["continues"] = json!(false),
+        2 => script[k]["continues"] = Value::Null,
+        _ => {}
+    }
     let (conn, srv_end) = pair_connection();
     let sc = script.clone();
     let mut fs = spawn_fake(
@@ -164,8 +170,8 @@ fn client_case(ctx: &Ctx, k: usize, fin: Final, follow: usize, rng: &mut Rng) {
         },
         0,
     );
-    let wit = |msg: String| json!({"engine": "c05-client", "k": k, "final": format!("{:?}", fin), "follow_up_calls": follow, "server_script": script, "message": msg});
-    ctx.case(if k >= 1 || fin != Final::Result { Some(hash_of(&(k, fin, follow))) } else { None });
+    let wit = |msg: String| json!({"engine": "c05-client", "k": k, "final": format!("{:?}", fin), "follow_up_calls": follow, "final_spelling": spelling, "server_script": script, "message": msg});
+    ctx.case(if k >= 1 || fin != Final::Result { Some(hash_of(&(k, fin, follow, spelling))) } else { None });
     let mut mc = MC::new(conn.clone(), "x.y.More", json!({}));
     let mut items: Vec<Result<Value, String>> = Vec::new();
     match mc.more() {
@@ -238,7 +244,7 @@ fn client_case(ctx: &Ctx, k: usize, fin: Final, follow: usize, rng: &mut Rng) {
 }
 
 pub fn main(ctx: &Ctx) -> i32 {
-    ctx.set_rule("server: every script over {set_continues(true), set_continues(false), reply, reply_error} up to length 5 (thorough: also the three library error replies, up to length 5) x flags {-, more, oneway, more+oneway}; client: k continues replies then a final result / standard error / custom error (with and without parameters), then 0-3 further calls; distinct = (script, flags) / (k, final kind, follow-ups); non-trivial = script has >=1 reply op / k>=1 or error final");
+    ctx.set_rule("server: every script over {set_continues(true), set_continues(false), reply, reply_error} up to length 5 (thorough: also the three library error replies, up to length 5) x flags {-, more, oneway, more+oneway}; client: k continues replies then a final result / standard error / custom error (with and without parameters) whose `continues` member is absent / false / null, then 0-3 further calls; distinct = (script, flags) / (k, final kind, follow-ups); non-trivial = script has >=1 reply op / k>=1 or error final");
     ctx.assume("a gated attempt (continues set, request without more) must return an error and write nothing even for a oneway request");
     ctx.set_exhaustive(true);
     let ops: &[&'static str] = ctx.tier.pick(OPS, OPS_EXT);
@@ -269,7 +275,9 @@ pub fn main(ctx: &Ctx) -> i32 {
                     continue;
                 }
                 for follow in 0..=3 {
-                    client_case(ctx, k, *fin, follow, &mut rng);
+                    for spelling in 0..3 {
+                        client_case(ctx, k, *fin, follow, spelling, &mut rng);
+                    }
                 }
             }
         }
@@ -293,6 +301,6 @@ pub fn replay(ctx: &Ctx, w: &Value) {
             Some("CustomErrorNoParams") => Final::CustomErrorNoParams,
             _ => Final::Result,
         };
-        client_case(ctx, k, fin, follow, &mut Rng::new(ctx.seed));
+        client_case(ctx, k, fin, follow, w.get("final_spelling").and_then(|v| v.as_u64()).unwrap_or(0) as usize, &mut Rng::new(ctx.seed));
     }
 }
